@@ -117,34 +117,51 @@ class Run(object):
         self.samples = []
         self.pool = None
         self.stopped_early = False
+        self.jobs = 1
+        self.step = 8
 
     def open_pool(self):
         jobs = int(os.environ.get('VERIF_JOBS', '0')) or min(multiprocessing.cpu_count(),
                                                               16 if self.ctx.tier == 'thorough' else 8)
         if getattr(self.mod, 'SERIAL', False) or jobs <= 1:
             return
+        self.jobs = jobs
+        self.step = 8 * jobs
         self.pool = multiprocessing.get_context('fork').Pool(jobs)
 
     def close_pool(self):
         if self.pool is not None:
-            self.pool.terminate()
+            self.pool.close()          # no task is in flight here (see impl_batch)
             self.pool.join()
             self.pool = None
 
     def impl_batch(self, cases):
         """results for a prefix of `cases`; stops early once enough failures are in hand (a broken
-        implementation may make every remaining case slow)"""
-        it = map(_worker, cases) if self.pool is None else \
-            self.pool.imap(_worker, cases, chunksize=max(1, min(50, len(cases) // 64)))
-        out, bad = [], 0
-        for r in it:
-            out.append(r)
-            if r[0] == 'ok' and r[1].get('d_fail'):
-                bad += 1
-                if bad >= MAX_FAILS:
+        implementation may make every remaining case slow).  Work is handed to the pool in small slices
+        and the early stop happens BETWEEN slices, so the pool is never torn down with tasks in flight
+        (terminate()/join() with a busy task feeder can dead-lock in CPython)."""
+        if self.pool is None:
+            it = map(_worker, cases)
+            out, bad = [], 0
+            for r in it:
+                out.append(r)
+                if r[0] == 'crash' or (r[1].get('d_fail') and bad + 1 >= MAX_FAILS):
                     break
-            if r[0] == 'crash':
-                break
+                bad += 1 if r[1].get('d_fail') else 0
+        else:
+            out, bad = [], 0
+            i, step = 0, self.step
+            while i < len(cases):
+                part = self.pool.map(_worker, cases[i:i + step], chunksize=max(1, step // (8 * self.jobs)))
+                i += step
+                out.extend(part)
+                nbad = sum(1 for r in part if r[0] == 'ok' and r[1].get('d_fail'))
+                bad += nbad
+                if bad >= MAX_FAILS or any(r[0] == 'crash' for r in part):
+                    break
+                # slices grow while everything is fine (less synchronisation), shrink on the first failure
+                step = 8 * self.jobs if nbad else min(step * 2, 128 * self.jobs)
+            self.step = step
         if len(out) < len(cases):
             self.close_pool()
             self.stopped_early = True
